@@ -85,8 +85,10 @@ structure TInv (s : TState) : Prop where
   wgZero : closedPhase s.closer = true → s.wg = 0
   openOk : (s.dbOpen = false ∨ s.storeOpen = false) → closedPhase s.closer = true
   noUse : s.useAfterClose = false
-  /-- a state stays unclosed only if the DB write of removeState failed -/
-  unclosedOk : s.writeFails = false → s.unclosedStates = 0
+  /-- every created state is either still counted by the WaitGroup or has notified it -/
+  cntOk : s.wg + s.dones = s.logins
+  /-- whoever notified the WaitGroup has closed its state -/
+  closedOk : s.statesClosed = s.dones
 
 theorem tinv_init (n : Nat) (a b c d : Bool) : TInv (TState.init n a b c d) := by
   constructor <;> simp [TState.init, closing, closedPhase, owes, List.countP_replicate]
@@ -118,7 +120,8 @@ theorem tinv_sess_step (s : TState) (i : Nat) (a x : Sess) (s' : TState)
     (hq : s'.quit = s.quit) (hul : s'.usersLock = s.usersLock) (hdb : s'.dbOpen = s.dbOpen)
     (hso : s'.storeOpen = s.storeOpen)
     (hC : s'.wg + (if owes a then 1 else 0) = s.wg + (if owes x then 1 else 0))
-    (hun : s'.writeFails = s.writeFails ∧ (s'.unclosedStates = s.unclosedStates ∨ s.writeFails = true))
+    (hcnt : s'.wg + s'.dones + s.logins = s.wg + s.dones + s'.logins)
+    (hcls : s'.statesClosed + s.dones = s.statesClosed + s'.dones)
     (hrun : x = .running → closing s.closer = false)
     (hclosed : owes x = true → owes a = true ∨ closedPhase s.closer = false)
     (huse : s'.useAfterClose = false) : TInv s' := by
@@ -160,10 +163,8 @@ theorem tinv_sess_step (s : TState) (i : Nat) (a x : Sess) (s' : TState)
     simp [hao, hxo] at hC; omega
   · rw [hdb, hso, hcl]; exact h.openOk
   · exact huse
-  · rw [hun.1]; intro hw
-    cases hun.2 with
-    | inl h1 => rw [h1]; exact h.unclosedOk hw
-    | inr h2 => rw [hw] at h2; cases h2
+  · have := h.cntOk; omega
+  · have := h.closedOk; omega
 
 theorem wg_pos (s : TState) (h : TInv s) (i : Nat) (ho : owes (s.sessAt i) = true) : 0 < s.wg := by
   have hne : s.sessAt i ≠ .gone := by intro e; rw [e] at ho; cases ho
@@ -189,8 +190,7 @@ theorem tinv_apply (s : TState) (st : TStep) (h : TInv s) (hen : s.enabled st = 
       | false => rfl
       | true => have := h.lockOk hc; rw [hul] at this; cases this
     apply tinv_sess_step s i .preauth .running _ h ha (by simp) <;> simp [apply, setSess, owes, h.noUse]
-    · omega
-    · revert hncl hnr; cases s.closer <;> simp [closing, closedPhase]
+    all_goals first | omega | (revert hncl hnr; cases s.closer <;> simp [closing, closedPhase])
   | leave i =>
     simp only [enabled, Bool.or_eq_true, beq_iff_eq] at hen
     cases hen with
@@ -236,7 +236,7 @@ theorem tinv_apply (s : TState) (st : TStep) (h : TInv s) (hen : s.enabled st = 
       | false => have := h.openOk (Or.inr hd); rw [hnc] at this; cases this
     apply tinv_sess_step s i .relWrite .gone _ h hen (by simp) <;>
       simp [apply, setSess, owes, h.noUse, hdb, hso]
-    omega
+    all_goals omega
   | finishFail i =>
     simp only [enabled, Bool.and_eq_true, beq_iff_eq] at hen
     have hp := wg_pos s h i (by rw [hen.1]; rfl)
@@ -247,31 +247,31 @@ theorem tinv_apply (s : TState) (st : TStep) (h : TInv s) (hen : s.enabled st = 
       | false => have := h.openOk (Or.inl hd); rw [hnc] at this; cases this
     apply tinv_sess_step s i .relWrite .gone _ h hen.1 (by simp) <;>
       simp [apply, setSess, owes, h.noUse, hdb, hen.2]
-    omega
+    all_goals omega
   | beginClose =>
     simp only [enabled, Bool.and_eq_true, beq_iff_eq] at hen
     obtain ⟨hc, _⟩ := hen
-    have := h.unclosedOk; have := h.wgEq; have := h.openOk; have := h.noUse
+    have := h.cntOk; have := h.closedOk; have := h.wgEq; have := h.openOk; have := h.noUse
     constructor <;> simp_all [apply, closing, closedPhase]
   | closeQuit =>
     simp only [enabled, beq_iff_eq] at hen
-    have := h.unclosedOk; have := h.wgEq; have := h.openOk; have := h.noUse; have := h.lockOk
+    have := h.cntOk; have := h.closedOk; have := h.wgEq; have := h.openOk; have := h.noUse; have := h.lockOk
     constructor <;> simp_all [apply, closing, closedPhase]
   | updaterExit =>
     have h1 := h.wgEq; have h2 := h.openOk; have h3 := h.noUse; have h4 := h.lockOk
-    have h5 := h.quitOk; have h6 := h.sigOk; have h7 := h.wgZero; have h8 := h.unclosedOk
+    have h5 := h.quitOk; have h6 := h.sigOk; have h7 := h.wgZero; have h8 := h.cntOk; have h9 := h.closedOk
     constructor <;> simp_all [apply, TState.sessAt]
   | updaterWaited =>
     simp only [enabled, Bool.and_eq_true, beq_iff_eq] at hen
-    have := h.unclosedOk; have := h.wgEq; have := h.openOk; have := h.noUse; have := h.lockOk
+    have := h.cntOk; have := h.closedOk; have := h.wgEq; have := h.openOk; have := h.noUse; have := h.lockOk
     constructor <;> simp_all [apply, closing, closedPhase]
   | connOk =>
     simp only [enabled, beq_iff_eq] at hen
-    have := h.unclosedOk; have := h.wgEq; have := h.openOk; have := h.noUse; have := h.lockOk
+    have := h.cntOk; have := h.closedOk; have := h.wgEq; have := h.openOk; have := h.noUse; have := h.lockOk
     constructor <;> simp_all [apply, closing, closedPhase]
   | connFail =>
     simp only [enabled, Bool.and_eq_true, beq_iff_eq] at hen
-    have := h.unclosedOk; have := h.wgEq; have := h.openOk; have := h.noUse; have := h.lockOk
+    have := h.cntOk; have := h.closedOk; have := h.wgEq; have := h.openOk; have := h.noUse; have := h.lockOk
     constructor <;> simp_all [apply, closing, closedPhase]
   | signalAll =>
     simp only [enabled, beq_iff_eq] at hen
@@ -290,18 +290,19 @@ theorem tinv_apply (s : TState) (st : TStep) (h : TInv s) (hen : s.enabled st = 
     · simp [apply, closedPhase]
     · intro hh; have := h2 (by simpa [apply] using hh); rw [hen] at this; simp [closedPhase] at this
     · simpa [apply] using h3
-    · simpa [apply] using h.unclosedOk
+    · simpa [apply] using h.cntOk
+    · simpa [apply] using h.closedOk
   | waitDone =>
     simp only [enabled, Bool.and_eq_true, beq_iff_eq] at hen
-    have := h.unclosedOk; have := h.wgEq; have := h.openOk; have := h.noUse; have := h.lockOk
+    have := h.cntOk; have := h.closedOk; have := h.wgEq; have := h.openOk; have := h.noUse; have := h.lockOk
     constructor <;> simp_all [apply, closing, closedPhase]
   | storeClosed =>
     simp only [enabled, beq_iff_eq] at hen
-    have := h.unclosedOk; have := h.wgEq; have := h.openOk; have := h.noUse; have := h.lockOk; have := h.wgZero
+    have := h.cntOk; have := h.closedOk; have := h.wgEq; have := h.openOk; have := h.noUse; have := h.lockOk; have := h.wgZero
     constructor <;> simp_all [apply, closing, closedPhase]
   | dbClosed =>
     simp only [enabled, beq_iff_eq] at hen
-    have := h.unclosedOk; have := h.wgEq; have := h.openOk; have := h.noUse; have := h.lockOk; have := h.wgZero
+    have := h.cntOk; have := h.closedOk; have := h.wgEq; have := h.openOk; have := h.noUse; have := h.lockOk; have := h.wgZero
     constructor <;> simp_all [apply, closing, closedPhase]
 
 
